@@ -127,8 +127,26 @@ func WarmMD(cfg string) goldmark.Markdown {
 }
 
 // Source builds the symbolic source: either n free bytes, or a seed document with a window
-// of w symbolic bytes at offset p (w bytes appended when p == len(seed)).
+// of w symbolic bytes at offset p (w bytes appended when p == len(seed)), or a token sequence.
+// Optional framing (all modes): the parameter "pre" is a constant prefix, "post" a constant suffix,
+// and "rep" a unit that is written "repn" times in front of everything (long documents whose length
+// crosses internal thresholds: line-statistics tables, bufio's 4096-byte buffer, id tables).
 func Source() []byte {
+	core := sourceCore()
+	pre, post, rep := vp.ParamStr("pre", ""), vp.ParamStr("post", ""), vp.ParamStr("rep", "")
+	if pre == "" && post == "" && rep == "" {
+		return core
+	}
+	var src []byte
+	for i, n := 0, vp.ParamInt("repn", 0); i < n; i++ {
+		src = append(src, rep...)
+	}
+	src = append(src, pre...)
+	src = append(src, core...)
+	return append(src, post...)
+}
+
+func sourceCore() []byte {
 	if toks := vp.ParamStr("tokens", ""); toks != "" {
 		// token mode: n positions, each one of the \x1f-separated tokens (solver-enumerated choice);
 		// the token "?" is one unconstrained symbolic byte
